@@ -7,6 +7,7 @@ from fractions import Fraction as Fr
 from ..srcmodel import AnalysisError
 from ..stages import estimates
 from ..algebra import Poly
+from .. import ndarr
 from ..ndarr import Arr, InterpRaise
 from ..pipeline import Pipeline
 from ..stencil import FV
@@ -201,6 +202,35 @@ def other_point_scenarios(cls='Derivative', dim=None):
     for method, n, gk in combos:
         h, f = mk(method, n, gk)
         out.append(Scenario('%s(%s, n=%s, steps=%s) ; call(y) ; call(x)' % (cls, method, n, gk), h, f, 'other point'))
+    return out
+
+
+def earlier_object_scenarios(cls='Derivative', dim=None):
+    """Another object of the same process - built with other step options and used - comes first; the object that is judged
+    is built afterwards with the default options and must behave like the first object of a process."""
+    out = []
+
+    def mk(method, n, earlier_step):
+        def history(P):
+            I = P.interp
+            if earlier_step == 'scalar':
+                first_step = Poly.sym('h_fixed')
+                ndarr.POSITIVE_ATOMS.add('h_fixed')
+            else:
+                first_step = P.sym_generator('Min', num_extrap=1)
+            o1, x1 = P.build(cls, method, None if cls == 'Hessian' else 2, n=n, step=first_step, dim=dim)
+            estimates(I, o1, x1)
+            return P.build(cls, method, None if cls == 'Hessian' else 2, n=n, step=None, dim=dim)
+
+        def fresh(P):
+            return P.build(cls, method, None if cls == 'Hessian' else 2, n=n, step=None, dim=dim)
+        return history, fresh
+    n0 = 1 if cls == 'Derivative' else None
+    for method in ('central', 'forward'):
+        for earlier_step in ('scalar', 'generator'):
+            h, f = mk(method, n0, earlier_step)
+            out.append(Scenario('%s(%s, step=<%s>) ; call ; then a new %s(%s) with default steps ; call'
+                                % (cls, method, earlier_step, cls, method), h, f, 'earlier object'))
     return out
 
 
